@@ -265,6 +265,76 @@ fn idx_of(g: &mut Gen, v: &Value) -> i64 {
     match g.r.gen_range(0..8) { 0 => i32::MIN as i64, 1 => i32::MAX as i64, 2 => len, 3 => -len - 1, 4 => -len, _ => g.r.gen_range(-len - 2..len + 3) }
 }
 
+// ---- random JSONPath syntax trees (the JSON form the harness turns into jsonb::jsonpath values)
+fn rnd_index(g: &mut Gen) -> J {
+    let v: i64 = match g.r.gen_range(0..8) { 0 => i32::MAX as i64, 1 => i32::MIN as i64 + 1, 2 => -1, _ => g.r.gen_range(-3..5) };
+    if g.r.gen_range(0..3) == 0 { json!({"t":"l","v": v.clamp(-2147483647, 2147483647)}) } else { json!({"t":"n","v": v}) }
+}
+fn rnd_name(g: &mut Gen, v: &Value) -> J {
+    let mut pool: Vec<String> = vec!["a".into(), "b".into(), "ab".into(), "id".into()];
+    fn keys(v: &Value, out: &mut Vec<String>) {
+        match v {
+            Value::Object(o) => { for (k, x) in o { out.push(k.clone()); keys(x, out); } }
+            Value::Array(a) => for x in a { keys(x, out) },
+            _ => {}
+        }
+    }
+    keys(v, &mut pool);
+    bytes_to_j(g.pick(&pool).as_bytes())
+}
+fn rnd_nav(g: &mut Gen, v: &Value) -> J {
+    match g.r.gen_range(0..8) {
+        0 => json!({"p":"dotw"}),
+        1 | 2 => json!({"p":"brw"}),
+        3 => json!({"p":"dot","n": rnd_name(g, v)}),
+        4 => json!({"p": *g.pick(&["colon", "objf", "dot"]),"n": rnd_name(g, v)}),
+        _ => {
+            let n = g.r.gen_range(1..4);
+            let ix: Vec<J> = (0..n).map(|_| if g.r.gen_range(0..3) == 0 { json!({"x":"s","s": rnd_index(g),"e": rnd_index(g)}) } else { json!({"x":"i","i": rnd_index(g)}) }).collect();
+            json!({"p":"idx","ix": ix})
+        }
+    }
+}
+fn rnd_literal(g: &mut Gen) -> J {
+    match g.r.gen_range(0..6) {
+        0 => json!({"v":"null"}),
+        1 => json!({"v":"bool","b": g.r.gen_range(0..2)}),
+        2 | 3 => { let mut n = num_to_j(&match g.r.gen_range(0..3) { 0 => Number::UInt64(g.r.gen_range(0..4)), 1 => Number::Int64(g.r.gen_range(-3..3)), _ => Number::Float64(g.r.gen_range(-4..6) as f64 / 2.0) }); n["v"] = json!("num"); n }
+        _ => json!({"v":"str","s": bytes_to_j(g.pick(STR_POOL).as_bytes())}),
+    }
+}
+fn rnd_operand(g: &mut Gen, v: &Value, root_only: bool) -> J {
+    if g.r.gen_range(0..3) == 0 {
+        json!({"e":"val","v": rnd_literal(g)})
+    } else {
+        let mut ps = vec![if root_only || g.r.gen_range(0..5) == 0 { json!({"p":"root"}) } else { json!({"p":"cur"}) }];
+        for _ in 0..g.r.gen_range(0..3) { ps.push(rnd_nav(g, v)); }
+        json!({"e":"paths","ps": ps})
+    }
+}
+fn rnd_expr(g: &mut Gen, v: &Value, depth: u32, root_only: bool) -> J {
+    match g.r.gen_range(0..8) {
+        0 | 1 if depth > 0 => json!({"e":"bin","op": *g.pick(&["and", "or"]),"l": rnd_expr(g, v, depth - 1, root_only),"r": rnd_expr(g, v, depth - 1, root_only)}),
+        2 => {
+            let mut ps = vec![if root_only { json!({"p":"root"}) } else { json!({"p":"cur"}) }];
+            for _ in 0..g.r.gen_range(0..3) { ps.push(rnd_nav(g, v)); }
+            if depth > 0 && g.r.gen_range(0..3) == 0 { ps.push(json!({"p":"filter","e": rnd_expr(g, v, depth - 1, false)})); }
+            json!({"e":"exists","ps": ps})
+        }
+        _ => json!({"e":"bin","op": *g.pick(&["eq", "ne", "lt", "le", "gt", "ge"]),"l": rnd_operand(g, v, root_only),"r": rnd_operand(g, v, root_only)}),
+    }
+}
+fn rnd_path(g: &mut Gen, v: &Value) -> J {
+    if g.r.gen_range(0..8) == 0 {
+        return json!([{"p":"pred","e": rnd_expr(g, v, 1, true)}]);
+    }
+    let mut ps = vec![json!({"p":"root"})];
+    for _ in 0..g.r.gen_range(0..4) {
+        if g.r.gen_range(0..4) == 0 { ps.push(json!({"p":"filter","e": rnd_expr(g, v, 1, false)})); } else { ps.push(rnd_nav(g, v)); }
+    }
+    J::Array(ps)
+}
+
 fn pre_of(g: &mut Gen) -> J {
     let n = g.r.gen_range(0..9);
     J::Array((0..n).map(|_| J::from(g.r.gen::<u8>())).collect())
@@ -298,6 +368,15 @@ pub fn script(kind_arg: &str, seed: u64, count: usize) -> Vec<J> {
         let t = value_to_tree(&d);
         let mut line = match kind {
             "rand" => json!({"op":"rand_value","a":{}}),
+            "path" => {
+                let mut a = json!({"path": rnd_path(&mut g, &d)});
+                if n % 3 == 0 {
+                    // into buffers that already hold an earlier result
+                    a["pre"] = json!([32, 0, 0, 0, 64, 0, 0, 0]);
+                    a["preoffs"] = json!([8]);
+                }
+                json!({"op":"select","d":[t],"a":a})
+            }
             "codec" => {
                 if n % 2 == 0 { json!({"op":"roundtrip","d":[t],"a":{}}) } else { json!({"op":"to_vec","d":[t],"a":{"pre":pre_of(&mut g)}}) }
             }
